@@ -6,8 +6,12 @@ package main
 import (
 	"encoding/json"
 	"fmt"
+	"io/fs"
 	"os"
+	"path/filepath"
+	"sort"
 	"strings"
+	"time"
 )
 
 func usage() {
@@ -19,6 +23,7 @@ func main() {
 	if len(os.Args) < 2 {
 		usage()
 	}
+	ownGoCache()
 	switch os.Args[1] {
 	case "check":
 		if len(os.Args) < 3 {
@@ -71,5 +76,47 @@ func main() {
 		os.Exit(selftest(os.Args[2:]))
 	default:
 		usage()
+	}
+}
+
+// ownGoCache gives every go build / go list this tool starts a build cache of its own and keeps it small. Each
+// check compiles a freshly rewritten copy of the tree under a new scratch path, so the entries are rarely reused;
+// in the shared default cache they piled up to >100 GB within a day.
+func ownGoCache() {
+	if os.Getenv("VERIF_KEEP_GOCACHE") != "" {
+		return
+	}
+	dir := filepath.Join(cacheDir(), "gocache")
+	os.MkdirAll(dir, 0o755)
+	os.Setenv("GOCACHE", dir)
+	var total int64
+	type ent struct {
+		p string
+		t time.Time
+		n int64
+	}
+	var es []ent
+	filepath.WalkDir(dir, func(p string, d fs.DirEntry, err error) error {
+		if err != nil || d.IsDir() {
+			return nil
+		}
+		if fi, e := d.Info(); e == nil {
+			total += fi.Size()
+			es = append(es, ent{p, fi.ModTime(), fi.Size()})
+		}
+		return nil
+	})
+	const limit = 6 << 30
+	if total < limit {
+		return
+	}
+	sort.Slice(es, func(i, j int) bool { return es[i].t.Before(es[j].t) })
+	for _, e := range es {
+		if total < limit/2 {
+			break
+		}
+		if os.Remove(e.p) == nil {
+			total -= e.n
+		}
 	}
 }
